@@ -83,13 +83,13 @@ def run(ctx, report: Report) -> None:
     first_bad = None
     from ..interp import Obj, Raised, call_function
     from ..tables import NSKey, el_obj, matcher_obj
-    for is_xml in (False, True):
+    for is_xml in (False, True, 'xhtml'):          # 'xhtml': an XML tree whose root is in the XHTML namespace (is_xml and is_html)
         for sel_name in spellings + ['*', 'span']:
             for doc_name in spellings:
                 try:
                     got = bool(call_function(ctx, 'css_match.CSSMatch.match_tagname',
-                                             [el_obj(doc_name, is_xml=is_xml), Obj(_name='SelectorTag', name=sel_name, prefix=None)],
-                                             {}, {}, matcher_obj(is_xml=is_xml, is_html=not is_xml)))
+                                             [el_obj(doc_name, is_xml=bool(is_xml)), Obj(_name='SelectorTag', name=sel_name, prefix=None)],
+                                             {}, {}, matcher_obj(is_xml=bool(is_xml), is_html=(not is_xml) or is_xml == 'xhtml', has_html_namespace=is_xml == 'xhtml')))
                 except Raised as e:
                     got = f'raises {e.exc_name}'
                 except miniev.Unsupported as e:
@@ -110,7 +110,7 @@ def run(ctx, report: Report) -> None:
     kinds = dict(ATTR_KINDS)
     kinds.update({'HREF': (None, None), 'href': (None, None), 'x:HREF': (U1, 'HREF')})
     for supports in (False, True):
-        for is_xml in ((False, True) if supports else (False,)):
+        for is_xml in ((False, True, 'xhtml') if supports else (False,)):
             for prefix in ('', '*', 'p'):
                 for sel_attr in ('href', 'HREF', 'Href'):
                     for key in ('href', 'HREF', 'x:HREF'):
@@ -118,9 +118,9 @@ def run(ctx, report: Report) -> None:
                         k_ = NSKey(key, *kinds[key]) if kinds[key][0] is not None else key
                         try:
                             got = call_function(ctx, 'css_match.CSSMatch.match_attribute_name',
-                                                [el_obj('e', attrs={k_: 'v'}, is_xml=is_xml), sel_attr, prefix], {},
+                                                [el_obj('e', attrs={k_: 'v'}, is_xml=bool(is_xml)), sel_attr, prefix], {},
                                                 {'css_match.CSSMatch.supports_namespaces': lambda _s=supports: _s},
-                                                matcher_obj(is_xml=is_xml, is_html=not is_xml, namespaces=nsmap))
+                                                matcher_obj(is_xml=bool(is_xml), is_html=(not is_xml) or is_xml == 'xhtml', has_html_namespace=is_xml == 'xhtml', namespaces=nsmap))
                         except Raised as e:
                             got = f'raises {e.exc_name}'
                         except miniev.Unsupported as e:
